@@ -148,7 +148,13 @@ pub fn build_server(max_head: usize) -> Server {
         let s = format!("{},{}", ctx.params.get("a").unwrap_or("?"), ctx.params.get("b").unwrap_or("?"));
         res.ok(Headers::empty_nodate(), s)
     });
-    b.fallback_route(|_ctx, res| res.send0(&Status::NOT_FOUND, Headers::empty_nodate()));
+    // the fallback gets an EMPTY parameter set (C12): anything left over from an earlier lookup or request shows as a 500
+    b.fallback_route(|ctx, res| {
+        if ctx.params.iter().next().is_some() {
+            return res.ok(Headers::empty_nodate(), "stale-params");
+        }
+        res.send0(&Status::NOT_FOUND, Headers::empty_nodate())
+    });
     b.pre_routing_hook(|req, res| match req.headers.get("x-hook") {
         Some(b"drop") => {
             let _ = res.send0(&Status::of(405), Headers::empty_nodate());
